@@ -45,6 +45,29 @@ class _Lcg:
         return (self.s >> 8) % n
 
 
+def _nary(kind: str, ops: typing.List[typing.Any], form: int) -> typing.Any:
+    """concatenate / unite are documented to take an *iterable* of operands: lists, tuples, one-shot iterators alike."""
+    from pydsdl import BitLengthSet
+
+    arg: typing.Any
+    if form == 1:
+        arg = tuple(ops)
+    elif form == 2:
+        arg = (x for x in ops)  # generator: can be consumed only once
+    elif form == 3:
+        arg = iter(ops)
+    elif form == 4:
+        arg = map(lambda x: x, ops)
+    elif form == 5:
+        arg = dict.fromkeys(range(len(ops)))  # any iterable will do: here the values view of a dict
+        for i, x in enumerate(ops):
+            arg[i] = x
+        arg = arg.values()
+    else:
+        arg = list(ops)
+    return BitLengthSet.concatenate(arg) if kind == "cat" else BitLengthSet.unite(arg)
+
+
 def build(tree: typing.Any, spell: _Lcg, registry: typing.List[typing.Tuple[typing.Any, typing.Any]]) -> typing.Any:
     """Materialise a tree through the public API; every intermediate BitLengthSet is registered with its subtree."""
     from pydsdl import BitLengthSet
@@ -79,11 +102,11 @@ def build(tree: typing.Any, spell: _Lcg, registry: typing.List[typing.Tuple[typi
 
         if m == 0 or len(children) == 1:
             ops = [build(c, spell, registry) for c in children]
-            b = BitLengthSet.concatenate(ops) if kind == "cat" else BitLengthSet.unite(ops)
+            b = _nary(kind, ops, spell.next(6))
         elif m == 1:
             # static method with raw operands (ints / python sets) where the child is a leaf
             ops = [raw(c) if ok and spell.next(2) else build(c, spell, registry) for c, ok in zip(children, raw_ok)]
-            b = BitLengthSet.concatenate(ops) if kind == "cat" else BitLengthSet.unite(ops)
+            b = _nary(kind, ops, spell.next(6))
         else:
             # left fold with the binary operators, incl. the reflected ones
             first, rest = children[0], children[1:]
@@ -247,7 +270,7 @@ def check_tree(case: typing.Any, ctx: Ctx) -> Info:
     counters = ctx.extra
     registry: typing.List[typing.Tuple[typing.Any, typing.Any]] = []
     b, _ = guarded(build, tree, _Lcg(case.get("spell", 0)), registry, what="build")
-    oracle = Oracle(tree, counters)
+    oracle = Oracle(tree, counters, cost_limit=case.get("cost_limit", QUERY_COST_LIMIT))
     for q in case["queries"]:
         run_query(b, oracle, q, counters)
     # operands are never changed by building new sets from them / by querying the result: every intermediate object
@@ -304,8 +327,8 @@ def apply_step(state: typing.Dict[str, typing.Any], step: typing.Any, counters: 
     elif op in ("cat", "uni"):
         members = [pick(i) for i in step[1]]
         t = (op, tuple(m[1] for m in members))
-        f = BitLengthSet.concatenate if op == "cat" else BitLengthSet.unite
-        b, _ = guarded(lambda: f([m[0] for m in members]), what=op)
+        form = step[2] if len(step) > 2 else 0
+        b, _ = guarded(lambda: _nary(op, [m[0] for m in members], form), what=op)
         pool.append((b, t))
     elif op in ("add", "or"):
         lhs = pick(step[1])
@@ -398,9 +421,9 @@ def machine_factory(ctx: Ctx, hooks: typing.Any) -> typing.Any:
             self.step(["leaf", sorted(xs)])
 
         @precondition(lambda self: self.state["pool"])
-        @rule(op=st.sampled_from(["cat", "uni"]), idx=st.lists(st.integers(0, 63), min_size=1, max_size=3))
-        def nary(self, op: str, idx: typing.List[int]) -> None:
-            self.step([op, idx])
+        @rule(op=st.sampled_from(["cat", "uni"]), idx=st.lists(st.integers(0, 63), min_size=1, max_size=3), form=st.integers(0, 5))
+        def nary(self, op: str, idx: typing.List[int], form: int) -> None:
+            self.step([op, idx, form])
 
         @precondition(lambda self: self.state["pool"])
         @rule(
@@ -448,9 +471,79 @@ def machine_factory(ctx: Ctx, hooks: typing.Any) -> typing.Any:
     return BlsMachine
 
 
+# --------------------------------------------------------------------------------------------------------------
+# Structured residues.  Uniformly drawn leaves almost never have additive structure modulo the queried divisor, and that is
+# exactly where shortcuts for "the k-fold sumset stops growing after ..." go wrong (unions of cosets of a subgroup of Z_d,
+# arithmetic progressions, counts in a particular residue class mod d).  Two parts put a generator on that dimension:
+#   residue-grid   every residue set {0} + S, |S| <= 3, modulo d = 6..12, repeated / range-repeated k = 0 .. 3d-1 times (complete)
+#   structured     a + H + {0..j}*b (H a subgroup of Z_d, d <= 40), representatives lifted by multiples of d, k = q*d + r with r
+#                  uniform over Z_d and q from 0 to 2**58, optionally under a concatenation / union / padding, queried at d, its
+#                  divisors and multiples
+
+
+def _residue_grid(ctx: Ctx) -> typing.Iterator[typing.Any]:
+    import itertools
+
+    for d in range(6, 13):
+        for n in (1, 2, 3):
+            for rest in itertools.combinations(range(1, d), n):
+                leaf = ["leaf", [0] + list(rest)]
+                for k in range(0, 3 * d):
+                    for op in ("rep", "rng"):
+                        yield {"tree": [op, leaf, k], "queries": [["mod", d]], "spell": 0, "grid": True}
+
+
+def check_structured(case: typing.Any, ctx: Ctx) -> Info:
+    info = check_tree(case, ctx)
+    info.classes = list(info.classes) + ["structured"] + list(case.get("labels", []))
+    info.nontrivial = True  # by construction: additive structure modulo the queried divisor and a count beyond it
+    if case.get("grid"):
+        info.classes = ["residue-grid"]
+    return info
+
+
+@st.composite
+def _structured_cases(draw: typing.Any) -> typing.Any:
+    d = draw(st.one_of(st.integers(2, 24), st.integers(2, 40), st.sampled_from([6, 8, 10, 12, 14, 16, 18, 20, 24, 30, 32, 36])))
+    divs = [g for g in range(1, d + 1) if d % g == 0]
+    g = draw(st.sampled_from(divs[: max(1, len(divs) - 1)]))  # order of the subgroup H = (d/g) Z_d; never the whole group
+    j = draw(st.integers(0, 3))
+    if g * (j + 1) > 6:
+        j = max(0, 6 // g - 1)
+    a = draw(st.integers(0, d - 1))
+    b = draw(st.integers(1, max(1, d - 1)))
+    res = sorted({(a + h * (d // g) + i * b) % d for h in range(g) for i in range(j + 1)})
+    lifted = sorted({r + d * draw(st.integers(0, 3)) for r in res})
+    op = draw(st.sampled_from(["rep", "rep", "rng"]))
+    r = draw(st.integers(0, d - 1))
+    q = draw(st.one_of(st.integers(0, 4), st.integers(0, 4), st.sampled_from([2**8, 2**16, 2**32, 2**58]), st.integers(5, 2**58)))
+    k = q * d + r
+    tree: typing.Any = [op, ["leaf", lifted], k]
+    labels = ["residues:%d" % len(res), "subgroup:%d" % g, "q:%s" % ("0" if q == 0 else "1-4" if q <= 4 else "huge")]
+    wrap = draw(st.integers(0, 5))
+    if wrap == 1:
+        tree = ["cat", [tree, gen_leaf(draw)]]
+    elif wrap == 2:
+        tree = ["uni", [tree, gen_leaf(draw)]]
+    elif wrap == 3:
+        tree = ["pad", tree, draw(st.sampled_from([1, 2, 4, 8] + [x for x in divs if x <= 64]))]
+    elif wrap == 4:
+        tree = [draw(st.sampled_from(["rep", "rng"])), tree, draw(st.integers(0, 3))]
+    queries = [["mod", d], ["al", d], ["min"], ["max"]]
+    others = [x for x in divs if 1 < x < d] + [2 * d, 3 * d]
+    queries += [["mod", draw(st.sampled_from(others))]]
+    return {"tree": tree, "queries": queries, "spell": draw(st.integers(0, 2**32 - 1)), "labels": labels, "cost_limit": 20000}
+
+
+def gen_leaf(draw: typing.Any) -> typing.Any:
+    return draw(gen.leaf(3))
+
+
 def parts(ctx: Ctx) -> typing.List[Part]:
     return [
         Part("tree-small", _tree_cases(False), check_tree, weight=4),
         Part("tree-huge", _tree_cases(True), check_tree, weight=4),
+        Part("structured", _structured_cases(), check_structured, weight=3),
+        Part("residue-grid", None, check_structured, weight=0, grid=_residue_grid),
         Part("history", None, check_history, weight=1, cost=4.0, machine=machine_factory, steps=40),
     ]
